@@ -1096,6 +1096,25 @@ pub fn c11_run(cfg: &RunCfg) -> CheckReport {
         }
     });
     rep.part("large-families", large::describe(cfg.tier), ex);
+    if rep.has_violation() {
+        return rep;
+    }
+    // LCS on the size-trigger inputs (tables beyond 2^20 .. 2^27 cells, sides beyond 2^16)
+    let big = large::lcs_big();
+    let ex = explore(cfg, big.len(), |shard, acc| {
+        let inp = &big[shard];
+        match c11_large(Algorithm::Lcs, inp) {
+            Exact::Ok(o) => {
+                acc.sample(large::case_json(Algorithm::Lcs, inp, cfg.seed));
+                acc.ok(o.nontrivial, o.transitions, o.fp)
+            }
+            Exact::Kf1(e) if kf1_listed => acc.known("KF1", || format!("Lcs {}: {}", inp.name, e)),
+            Exact::Kf1(e) | Exact::Fail(e) => {
+                acc.violation(|| (large::case_json(Algorithm::Lcs, inp, cfg.seed), format!("{}: {}", inp.name, e)))
+            }
+        }
+    });
+    rep.part("lcs-huge-tables", json!({"inputs": big.iter().map(|i| i.name.clone()).collect::<Vec<_>>()}), ex);
     rep
 }
 
